@@ -1,7 +1,7 @@
 import Rfsm.Model.Sink
 import Rfsm.Proofs.CodecData
 /-! The writer against arbitrary sinks: ideal sink = the pure image; a failing call is always visible
-in the error flag; short writes are silent and lose exactly string payload bytes. -/
+in the error flag; a sink that takes only part of a call (but at least one byte) still gets everything. -/
 namespace Rfsm.Codec
 
 /-- the error flag reflects every failure seen so far -/
@@ -50,10 +50,6 @@ theorem runTv_inv (k : Sink) (bs : List Nat) (w : WState) (h : WInv w) : WInv (r
       intro _; rfl
   · exact h
 
-def SinkOutcome.state : SinkOutcome → WState
-  | .done w => w
-  | .panic w => w
-
 theorem sinkWrite_spec (k : Sink) (buf : List Nat) (w : WState) :
     (∃ n w', sinkWrite k buf w = (some n, w') ∧ w'.ok = w.ok ∧ w'.sawErr = w.sawErr) ∨
     (∃ w', sinkWrite k buf w = (none, w') ∧ w'.ok = w.ok ∧ w'.sawErr = true) := by
@@ -62,7 +58,35 @@ theorem sinkWrite_spec (k : Sink) (buf : List Nat) (w : WState) :
   | acc n => exact Or.inl ⟨_, _, rfl, rfl, rfl⟩
   | err => exact Or.inr ⟨_, rfl, rfl, rfl⟩
 
-theorem Op.run_inv (k : Sink) (op : Op) (w : WState) (h : WInv w) : WInv (op.run k w).state := by
+/-- `write_all`: the flag of the writer is untouched; a `false` answer means a failure was seen -/
+theorem writeAll_spec (k : Sink) (fuel : Nat) (buf : List Nat) (w : WState) (hf : buf.length ≤ fuel) :
+    (∃ w', writeAll k fuel buf w = (true, w') ∧ w'.ok = w.ok ∧ w'.sawErr = w.sawErr) ∨
+    (∃ w', writeAll k fuel buf w = (false, w') ∧ w'.ok = w.ok ∧ w'.sawErr = true) := by
+  induction fuel generalizing buf w with
+  | zero =>
+    cases buf with
+    | nil => exact Or.inl ⟨w, by simp [writeAll], rfl, rfl⟩
+    | cons b r => simp at hf
+  | succ fuel ih =>
+    cases buf with
+    | nil => exact Or.inl ⟨w, by simp [writeAll], rfl, rfl⟩
+    | cons b r =>
+      simp only [writeAll]
+      rcases sinkWrite_spec k (b :: r) w with ⟨n, w1, e, a, c⟩ | ⟨w1, e, a, c⟩
+      · rw [e]
+        cases n with
+        | zero => exact Or.inr ⟨_, rfl, a, rfl⟩
+        | succ m =>
+          simp only
+          have hl : ((b :: r).drop (m + 1)).length ≤ fuel := by
+            simp only [List.length_drop, List.length_cons] at hf ⊢; omega
+          rcases ih ((b :: r).drop (m + 1)) w1 hl with ⟨w', e', a', c'⟩ | ⟨w', e', a', c'⟩
+          · exact Or.inl ⟨w', e', by rw [a', a], by rw [c', c]⟩
+          · exact Or.inr ⟨w', e', by rw [a', a], c'⟩
+      · rw [e]
+        exact Or.inr ⟨w1, rfl, a, c⟩
+
+theorem Op.run_inv (k : Sink) (op : Op) (w : WState) (h : WInv w) : WInv (op.run k w) := by
   cases op with
   | tv tid v size => exact runTv_inv k _ w h
   | byte b => exact runTv_inv k _ w h
@@ -77,37 +101,28 @@ theorem Op.run_inv (k : Sink) (op : Op) (w : WState) (h : WInv w) : WInv (op.run
     simp only [Op.run]
     split
     · have h1 := runTv_inv k (strHeader s) w h
-      split
-      · exact h1
-      · rcases sinkWrite_spec k (s.take (strSliceLen s)) (runTv k (strHeader s) w) with
-          ⟨n, w', e, a, c⟩ | ⟨w', e, a, c⟩
-        · simp only [e, SinkOutcome.state]
-          intro hs
-          rw [c] at hs; rw [a]; exact h1 hs
-        · simp only [e, SinkOutcome.state]
-          intro _; rfl
+      rcases writeAll_spec k s.length s (runTv k (strHeader s) w) (Nat.le_refl _) with
+        ⟨w', e, a, c⟩ | ⟨w', e, a, c⟩
+      · simp only [e]
+        intro hs
+        rw [c] at hs; rw [a]; exact h1 hs
+      · simp only [e]
+        intro _; rfl
     · exact h
 
 /-- whatever the sink does: if some call failed, `has_error()` is true afterwards -/
-theorem runOps_inv (k : Sink) (ops : List Op) (w : WState) (h : WInv w) : WInv (runOps k ops w).state := by
+theorem runOps_inv (k : Sink) (ops : List Op) (w : WState) (h : WInv w) : WInv (runOps k ops w) := by
   induction ops generalizing w with
   | nil => exact h
   | cons op r ih =>
     unfold runOps
-    have := Op.run_inv k op w h
-    cases hr : op.run k w with
-    | done w1 => rw [hr] at this; exact ih w1 this
-    | panic w1 => rw [hr] at this; exact this
+    exact ih _ (Op.run_inv k op w h)
 
 /-! ### sinks that never fail -/
 
 /-- the sink never reports an error and takes at least `m` bytes of every call (all of a shorter one) -/
 def AcceptsUpTo (k : Sink) (m : Nat) : Prop :=
   k.flushFails = false ∧ ∀ i len, ∃ n, k.resp i len = .acc n ∧ min len m ≤ n
-
-def payloadLen : Op → Nat
-  | .str s => strSliceLen s
-  | _ => 0
 
 theorem writeByte_ok (k : Sink) (m : Nat) (hm : 1 ≤ m) (hk : AcceptsUpTo k m) (b : Nat) (w : WState) :
     ∃ w', writeByte k b w = (true, w') ∧ w'.out = w.out ++ [b] ∧ w'.ok = w.ok ∧ w'.sawErr = w.sawErr := by
@@ -138,57 +153,69 @@ theorem runTv_ok (k : Sink) (m : Nat) (hm : 1 ≤ m) (hk : AcceptsUpTo k m) (bs 
   obtain ⟨w', e, o, a, c⟩ := writeBytes_ok k m hm hk bs w
   simp [runTv, hw, e, o, a, c]
 
-/-- one call against a never-failing sink: no error is ever recorded; the bytes are complete when the
-string payload (if any) is not longer than what the sink takes at once -/
+/-- `write_all` against a never-failing sink that takes at least one byte per call: everything arrives -/
+theorem writeAll_ok (k : Sink) (m : Nat) (hm : 1 ≤ m) (hk : AcceptsUpTo k m) (fuel : Nat) (buf : List Nat)
+    (w : WState) (hf : buf.length ≤ fuel) :
+    ∃ w', writeAll k fuel buf w = (true, w') ∧ w'.out = w.out ++ buf ∧ w'.ok = w.ok ∧ w'.sawErr = w.sawErr := by
+  induction fuel generalizing buf w with
+  | zero =>
+    cases buf with
+    | nil => exact ⟨w, by simp [writeAll], by simp, rfl, rfl⟩
+    | cons b r => simp at hf
+  | succ fuel ih =>
+    cases buf with
+    | nil => exact ⟨w, by simp [writeAll], by simp, rfl, rfl⟩
+    | cons b r =>
+      obtain ⟨n, hr, hn⟩ := hk.2 w.calls (b :: r).length
+      simp only [writeAll, sinkWrite, hr]
+      have hpos : 1 ≤ min n (b :: r).length := by
+        simp only [List.length_cons] at hn ⊢; omega
+      obtain ⟨j, hj⟩ : ∃ j, min n (b :: r).length = j + 1 := ⟨min n (b :: r).length - 1, by omega⟩
+      rw [hj]
+      simp only
+      have hl : ((b :: r).drop (j + 1)).length ≤ fuel := by
+        simp only [List.length_drop, List.length_cons] at hf ⊢; omega
+      obtain ⟨w', e', o', a', c'⟩ := ih ((b :: r).drop (j + 1))
+        { w with out := w.out ++ (b :: r).take (j + 1), calls := w.calls + 1,
+                 sawShort := w.sawShort || decide (j + 1 < (b :: r).length) } hl
+      refine ⟨w', e', ?_, a', c'⟩
+      rw [o']
+      simp only [List.append_assoc, List.take_append_drop]
+
+/-- one call against a never-failing sink that takes at least one byte per call: no error is
+recorded and all bytes of the call arrive -/
 theorem Op.run_ok (k : Sink) (m : Nat) (hm : 1 ≤ m) (hk : AcceptsUpTo k m) (op : Op) (w : WState)
-    (hw : w.ok = true) (hp : op.panics = false) :
-    ∃ w', op.run k w = .done w' ∧ w'.ok = true ∧ w'.sawErr = w.sawErr ∧
-      (payloadLen op ≤ m → w'.out = w.out ++ op.bytes) := by
+    (hw : w.ok = true) :
+    (op.run k w).ok = true ∧ (op.run k w).sawErr = w.sawErr ∧ (op.run k w).out = w.out ++ op.bytes := by
   cases op with
   | tv tid v size =>
     obtain ⟨o, a, c⟩ := runTv_ok k m hm hk (tvBytes tid v size) w hw
-    exact ⟨_, rfl, a, c, fun _ => o⟩
+    exact ⟨a, c, o⟩
   | byte b =>
     obtain ⟨o, a, c⟩ := runTv_ok k m hm hk [b] w hw
-    exact ⟨_, rfl, a, c, fun _ => o⟩
-  | flush => exact ⟨w, by simp [Op.run, hw, hk.1], hw, rfl, fun _ => by simp [Op.bytes]⟩
+    exact ⟨a, c, o⟩
+  | flush => simp [Op.run, hw, hk.1, Op.bytes]
   | str s =>
     obtain ⟨o, a, c⟩ := runTv_ok k m hm hk (strHeader s) w hw
-    have hp' : strPanics s = false := hp
-    obtain ⟨n, hr, hn⟩ := hk.2 (runTv k (strHeader s) w).calls (s.take (strSliceLen s)).length
-    simp only [Op.run, hw, if_true, hp', Bool.false_eq_true, if_false, sinkWrite, hr]
-    refine ⟨_, rfl, a, c, ?_⟩
-    intro hpl
-    simp only [payloadLen] at hpl
-    have hl : (s.take (strSliceLen s)).length ≤ strSliceLen s := by simp; omega
-    have : min n (s.take (strSliceLen s)).length = (s.take (strSliceLen s)).length := by omega
-    simp only [this, List.take_length, o, Op.bytes, List.append_assoc]
+    obtain ⟨w', e', o', a', c'⟩ := writeAll_ok k m hm hk s.length s (runTv k (strHeader s) w) (Nat.le_refl _)
+    simp only [Op.run, hw, if_true, e']
+    refine ⟨by rw [a', a], by rw [c', c], ?_⟩
+    rw [o', o]
+    simp [Op.bytes]
 
 theorem runOps_ok (k : Sink) (m : Nat) (hm : 1 ≤ m) (hk : AcceptsUpTo k m) (ops : List Op) (w : WState)
-    (hw : w.ok = true) (hp : anyPanics ops = false) :
-    ∃ w', runOps k ops w = .done w' ∧ w'.ok = true ∧ w'.sawErr = w.sawErr ∧
-      ((∀ op ∈ ops, payloadLen op ≤ m) → w'.out = w.out ++ bytesOf ops) := by
+    (hw : w.ok = true) :
+    (runOps k ops w).ok = true ∧ (runOps k ops w).sawErr = w.sawErr ∧
+      (runOps k ops w).out = w.out ++ bytesOf ops := by
   induction ops generalizing w with
-  | nil => exact ⟨w, rfl, hw, rfl, fun _ => by simp⟩
+  | nil => exact ⟨hw, rfl, by simp [runOps]⟩
   | cons op r ih =>
-    simp only [anyPanics, List.any_cons, Bool.or_eq_false_iff] at hp
-    obtain ⟨w1, e1, k1, s1, o1⟩ := Op.run_ok k m hm hk op w hw hp.1
-    obtain ⟨w2, e2, k2, s2, o2⟩ := ih w1 k1 hp.2
-    refine ⟨w2, by simp [runOps, e1, e2], k2, by rw [s2, s1], ?_⟩
-    intro hall
-    rw [o2 (fun x hx => hall x (by simp [hx])), o1 (hall op (by simp))]
+    obtain ⟨k1, s1, o1⟩ := Op.run_ok k m hm hk op w hw
+    obtain ⟨k2, s2, o2⟩ := ih (op.run k w) k1
+    refine ⟨by simpa [runOps] using k2, by simp only [runOps]; rw [s2, s1], ?_⟩
+    simp only [runOps]
+    rw [o2, o1]
     simp
-
-theorem payload_le_max (ops : List Op) : ∀ op ∈ ops, payloadLen op ≤ (ops.map payloadLen).foldr max 0 := by
-  induction ops with
-  | nil => simp
-  | cons a r ih =>
-    intro op hop
-    simp only [List.mem_cons] at hop
-    simp only [List.map_cons, List.foldr_cons]
-    rcases hop with rfl | h
-    · omega
-    · have := ih op h; omega
 
 theorem idealSink_accepts (m : Nat) : AcceptsUpTo idealSink m :=
   ⟨rfl, fun _ len => ⟨len, rfl, by omega⟩⟩
